@@ -185,8 +185,8 @@ def parse_export(out_json):
             "covers": covers,
             "error": errs.get(h, {}),
             "props": props.get(h, {}),
-            "cbmc_stats": cbmc.get(h, {}).get("cbmc_stats", {}),
-            "solver": cbmc.get(h, {}).get("configuration", {}).get("solver"),
+            "cbmc_stats": cbmc.get(h, {}).get("cbmc_stats") or {},
+            "solver": (cbmc.get(h, {}).get("configuration") or {}).get("solver"),
         }
     res["__tools__"] = d.get("tools", {})
     return res
